@@ -154,7 +154,7 @@ Definition find_sess (l : list psess) (from : addr) (p : plain_hdr) : option (na
 (** ** the part of a session [Session::post_recv] works on *)
 
 Definition core (s : psess) : session :=
-  mkSess (ps_id s) 0 (mode_enc (ps_mode s)) (ps_expired s) (ps_win s) (ps_exchs s).
+  mkSess (ps_id s) 0 (mode_enc (ps_mode s)) (mode_is_group (ps_mode s)) (ps_expired s) (ps_win s) (ps_exchs s).
 
 Definition with_core (s : psess) (c : session) : psess :=
   mkPS (ps_id s) (ps_addr s) (ps_local_node s) (ps_peer_node s) (ps_dec_key s) (ps_enc_key s)
@@ -179,7 +179,7 @@ Definition proto_initiator (x : proto_hdr) : bool := has_bit (x_flags x) 0.
 Definition proto_reliable (x : proto_hdr) : bool := has_bit (x_flags x) 2.
 
 Definition msg_of (p : plain_hdr) (x : proto_hdr) : msg :=
-  mkMsg 0 (plain_encrypted p) (p_ctr p) (x_exch x) (proto_initiator x) (opclass_of x)
+  mkMsg 0 (plain_encrypted p) (plain_group p) (plain_control p) (p_ctr p) (x_exch x) (proto_initiator x) (opclass_of x)
         (proto_reliable x) (proto_get_ack x).
 
 (** [Session::post_recv] *)
